@@ -142,8 +142,10 @@ pub fn build(rng: &mut Rng, i: usize) -> PDB {
         let _ = pdb.add_remark(n, t.join(" "));
     }
     if rng.chance(2, 3) {
+        // now and then an edge that the nine columns of CRYST1 cannot hold (no rule of validate_pdb looks at the cell)
+        let long_edge = rng.chance(1, 25);
         pdb.unit_cell = Some(UnitCell::new(
-            value(rng, 1_000, 99_999_999, 1000.0),
+            if long_edge { 100_000.0 + rng.below(900_000) as f64 + 0.5 } else { value(rng, 1_000, 99_999_999, 1000.0) },
             value(rng, 1_000, 99_999_999, 1000.0),
             value(rng, 1_000, 999_999, 1000.0),
             value(rng, 100, 17_999, 100.0),
